@@ -102,7 +102,10 @@ struct SolverCfg {
         std::vector<std::string> a = {"gmgpolar", "--verbose", "0", "--geometry", std::to_string(geometry), "--problem",
                                       std::to_string(problem), "--alpha_coeff", std::to_string(alpha), "--beta_coeff",
                                       std::to_string(beta), "--kappa_eps", KVnum(kappa_eps), "--delta_e", KVnum(delta_e),
-                                      "--alpha_jump", KVnum(alpha_jump), "--Rmax", KVnum(Rmax), "--R0", KVnum(R0)};
+                                      "--alpha_jump", KVnum(alpha_jump), "--Rmax", KVnum(Rmax), "--R0", KVnum(R0),
+                                      // as the command line does: setParameters() also makes this the active OpenMP thread
+                                      // count, so setup() (level caches, right-hand side, matrix assembly) runs with it
+                                      "--maxOpenMPThreads", std::to_string(std::max(threads, 1))};
         std::vector<char*> argv;
         for (auto& x : a)
             argv.push_back(const_cast<char*>(x.c_str()));
